@@ -287,6 +287,10 @@ ares_status_t ares_init_by_options(ares_channel_t            *channel,
     if (optmask != 0) {
       return ARES_ENODATA; /* LCOV_EXCL_LINE: DefensiveCoding */
     }
+    /* No options at all: the only default applied in this function is the
+     * query cache, which is on unless explicitly disabled */
+    channel->qcache_max_ttl = 3600;
+    channel->optmask        = ARES_OPT_QUERY_CACHE;
     return ARES_SUCCESS;
   }
 
